@@ -55,7 +55,7 @@ var siteCodes = map[string]int{
 	"Serve:Serve#1":                           28,
 }
 
-func recvName(fd *ast.FuncDecl) string {
+func recvTypeName(fd *ast.FuncDecl) string {
 	if fd.Recv == nil || len(fd.Recv.List) != 1 {
 		return ""
 	}
@@ -110,7 +110,7 @@ func goSites(repo string) (descs []string, err error) {
 				continue
 			}
 			owner := fd.Name.Name
-			if r := recvName(fd); r != "" {
+			if r := recvTypeName(fd); r != "" {
 				owner = r + "." + owner
 			}
 			count := map[string]int{}
